@@ -177,3 +177,12 @@ func reportGated(r *core.Run, rule string, g core.GateResult, reviewed, allowedR
 		r.Bad(rule, badRoots[0]+" reaches "+what+" outside "+gate, g.Roots[badRoots[0]], "entry point reaches "+what+" without passing "+gate)
 	}
 }
+
+func firstOf(ps []token.Pos) token.Pos {
+	if len(ps) == 0 {
+		return token.NoPos
+	}
+	return ps[0]
+}
+
+func itoa(n int) string { return fmt.Sprintf("%d", n) }
